@@ -3,6 +3,8 @@ import Ledger.Machine.Funding
 /-! Lemmas on the funding operations (`Take`, `TakeMax`, `Concat`, `Reverse`, `Total`). -/
 namespace Ledger.Machine
 
+variable {cfg : Cfg}
+
 /-- Sum of the amounts of the parts whose account satisfies `P`
     (`P = fun _ => true` gives `total`). -/
 def totalOf (P : String → Bool) : List Part → Int
